@@ -260,4 +260,22 @@ theorem stream_exact (evs : List Ev) (m : Map Nat) (hm : (Map.keys m).Nodup) (r 
     rw [foldl_applyL_congr false _ _ _ h1]
     exact ih (stepValues m ev) (stepValues_nodup m hm ev) (Reg.apply r ev) (stepValues_get m r hr ev) hv2
 
+theorem run_unfold (excl : Bool) (evs : List Ev) :
+    let cl := run Fix.fixed excl evs
+    Inv cl.cont ∧ cl.cont.exclusive = excl ∧ (Map.keys cl.values).Nodup
+    ∧ (∀ k, cl.values.get k = Reg.run evs k)
+    ∧ (∀ k, cl.cont.mapping.get k = ((evs.flatMap emit).foldl (Reg.applyL excl) Reg.empty) k)
+    ∧ cl.cont.notified = (evs.flatMap emit).length
+    ∧ Coh cl.cont := by
+  have h := run_facts excl evs { cont := Container.new excl } Reg.empty Reg.empty (inv_new excl) rfl
+    (by simp [Map.keys]) (fun _ => rfl) (fun _ => rfl)
+  obtain ⟨h1, h2, h3, h4, h5, h6, h7, h8⟩ := h
+  refine ⟨h1, h2, h3, h4, h5, by rw [show run Fix.fixed excl evs = evs.foldl (step Fix.fixed) { cont := Container.new excl } from rfl, h6]; simp [Container.new], ?_⟩
+  intro hd
+  by_cases he : evs.flatMap emit = []
+  · have : (run Fix.fixed excl evs).cont = Container.new excl := h8 he
+    rw [this] at hd; simp [Container.new] at hd
+  · have : (run Fix.fixed excl evs).cont.dirty = true := h7 he
+    rw [this] at hd; cases hd
+
 end GoZero.C13
